@@ -110,11 +110,12 @@ type c15Case struct {
 	Method   string
 	Writes   int // number of writes the body is split into
 	FlushMid bool
-	Interim  int // interim (1xx) response sent first
+	Interim  int  // interim (1xx) response sent first
+	Abort    bool // the origin breaks the response off after the first of its writes
 }
 
 func (c c15Case) String() string {
-	return fmt.Sprintf("pos=%s level=%d min=%d AE=%q type=%q size=%d payload=%s status=%d declare=%v %s writes=%d flushmid=%v interim=%d", c.Pos, c.Level, c.Min, c.AE, c.CType, c.Size, c.Payload, c.Status, c.Declare, c.Method, c.Writes, c.FlushMid, c.Interim)
+	return fmt.Sprintf("pos=%s level=%d min=%d AE=%q type=%q size=%d payload=%s status=%d declare=%v %s writes=%d flushmid=%v interim=%d abort=%v", c.Pos, c.Level, c.Min, c.AE, c.CType, c.Size, c.Payload, c.Status, c.Declare, c.Method, c.Writes, c.FlushMid, c.Interim, c.Abort)
 }
 
 // origin returns the handler program and the entity the origin serves (body as the origin
@@ -152,6 +153,9 @@ func (c c15Case) origin() (*hprog, []byte, bool) {
 		}
 	}
 	p.FlushEach = c.FlushMid
+	if c.Abort {
+		p.AbortAfter = 1
+	}
 	return p, plain, pre
 }
 
@@ -181,6 +185,13 @@ func c15Decode(r wire.Response) ([]byte, string) {
 	return nil, "unknown content-encoding " + enc
 }
 
+func maxInt(a, b int) int {
+	if a > b {
+		return a
+	}
+	return b
+}
+
 func aeOffersGzip(ae string) bool {
 	for _, part := range strings.Split(ae, ",") {
 		tok := strings.TrimSpace(part)
@@ -197,6 +208,18 @@ func aeOffersGzip(ae string) bool {
 }
 
 func c15Judge(c c15Case, with, without wire.Response, plain []byte, pre bool) (string, string) {
+	if c.Abort {
+		// the origin broke off mid-body: whatever reaches the client must not look like a complete
+		// response with different content
+		if with.Err != "" {
+			return "", ""
+		}
+		got, derr := c15Decode(with)
+		if derr == "" && bytes.Equal(got, plain) {
+			return "", ""
+		}
+		return "C15/truncated-origin-delivered-as-complete", fmt.Sprintf("the origin aborted after %d of %d bytes; the client received a well-formed complete response (status %d, Content-Encoding %q, Content-Length %q) that decodes to %d bytes (%s)", len(plain)/maxInt(c.Writes, 1), len(plain), with.Status, with.Get("Content-Encoding"), with.Get("Content-Length"), len(got), derr)
+	}
 	if without.Err != "" {
 		return "tool", "reference exchange failed: " + without.Err
 	}
@@ -312,6 +335,19 @@ func c15Cases(th bool) []c15Case {
 								out = append(out, c15Case{Pos: "gzip", Level: 5, Min: min, AE: ae, CType: ct, Size: sz, Payload: pl, Status: st, Declare: decl, Method: m, Writes: 1})
 							}
 						}
+					}
+				}
+			}
+		}
+	}
+	// origins that break off mid-body (large enough for the compressed prefix to leave the
+	// server's write buffer)
+	for _, pl := range []string{"random", "text"} {
+		for _, ae := range []string{"gzip", "-"} {
+			for _, decl := range []bool{false, true} {
+				for _, st := range []int{200, 0, 404} {
+					for _, w := range []int{2, 4} {
+						out = append(out, c15Case{Pos: "gzip", Level: 5, Min: min, AE: ae, CType: "text/html", Size: 400 * 1024, Payload: pl, Status: st, Declare: decl, Method: "GET", Writes: w, Abort: true})
 					}
 				}
 			}
